@@ -152,6 +152,23 @@ def faultDump (cfg : Config) (f : Fault) : PyVal :=
 def faultResponse (B : Backend) (cfg : Config) (f : Fault) : PyM String :=
   B.render (faultDump cfg f)
 
+/-- `Fault.dump(rpcid=…, version=…)` / the dictionary part of `Fault.response(rpcid=…, version=…)`:
+
+        if not version: version = self.config.version
+        if rpcid: self.rpcid = rpcid                       # a falsy forced id (None, 0, 0.0, "", False, [], {}) is IGNORED
+        return dump(self, is_response=True, rpcid=self.rpcid, version=version, config=self.config)
+
+    Returns the dictionary and the Fault as it is afterwards (the forced id is stored on the object: a later
+    `dump()` without arguments uses it too). -/
+def faultDumpWith (cfg : Config) (f : Fault) (rpcid : PyVal) (version : VerArg) : PyVal × Fault :=
+  let f' : Fault := if rpcid.truthy then { f with rpcid := rpcid } else f
+  (error (resolveVersion cfg version) f'.rpcid f'.code f'.message f'.data, f')
+
+/-- `Fault.response(rpcid=…, version=…)`: the same dictionary rendered by the JSON backend. -/
+def faultResponseWith (B : Backend) (cfg : Config) (f : Fault) (rpcid : PyVal) (version : VerArg) : PyM String × Fault :=
+  let (d, f') := faultDumpWith cfg f rpcid version
+  (B.render d, f')
+
 /-- `jsonrpclib.dumps(...)`: `dump` then `jdumps`. -/
 def dumps (B : Backend) (cfg : Config) (conv : PyVal → PyM PyVal) (fresh : String)
     (params : Params) (methodname : PyVal) (rpcid : PyVal) (version : VerArg)
